@@ -68,6 +68,11 @@ impl<'a> Iterator for TrieEntryIter<'a> {
             // Unwrap is safe: access is always in bounds
             // It is optimized away: https://rust.godbolt.org/z/va9K3az4n
             let k = self.data.get(i).unwrap();
+            if *k == 0 {
+                // label 0 is reserved for leaves in the double array, a key can not contain it:
+                // following it from a node without a leaf would silently skip the byte
+                return None;
+            }
             node_pos ^= *k as usize;
             unit = self.get(node_pos) as usize;
             if Trie::label(unit) != *k as usize {
